@@ -30,7 +30,7 @@ def strategy(tier):
 
     cfg = CFG if tier == "quick" else CFG.copy(max_tasks=12, max_workers=8)
     pin = CFG_PIN if tier == "quick" else CFG_PIN.copy(max_tasks=12, max_workers=6)
-    return st.one_of(gen.model_spec(cfg), gen.model_spec(cfg), gen.pinned_spec(pin))
+    return st.one_of(gen.model_spec(cfg), gen.model_spec(cfg), gen.pinned_spec(pin), gen.dense_pairs_spec(pin))
 
 
 def budget(tier):
